@@ -71,7 +71,7 @@ ATLAS: Dict[str, Any] = {
             **_KIN,
             "nTrk": num("int"), "width": num("float"), "isGood": num("bool"), "hasLead": num("bool"),
             "ttype": num("double", declared=True, md={"metadata_type": "add_method_type_info", "type_string": "xAOD::Jet", "method_name": "ttype", "return_type": "double", "tree_type": "float"}),
-            "trkPts": vec("float"), "hits": vec("int"), "weights": vec("double"),
+            "trkPts": vec("float"), "hits": vec("int"), "weights": vec("double"), "ptList": vec("float", coll_type="ana::FloatList"),
             "tracks": objvec("xAOD::TrackParticle", 1),
             "leadTrack": obj("xAOD::TrackParticle", 1, nullable=True),
             "scaled": fn("double", [("a", "double")], 'a * o->num("pt")', lambda o, a: a * o["pt"]),
@@ -134,7 +134,7 @@ CMS_AOD: Dict[str, Any] = {
         "reco::Muon": {"header": "DataFormats/MuonReco/interface/Muon.h", "members": {
             **_KIN, "nTrk": num("int"), "width": num("float"), "isGood": num("bool"), "hasLead": num("bool"),
             "ttype": num("double", declared=True, md={"metadata_type": "add_method_type_info", "type_string": "reco::Muon", "method_name": "ttype", "return_type": "double", "tree_type": "float"}),
-            "trkPts": vec("float"), "hits": vec("int"), "weights": vec("double"),
+            "trkPts": vec("float"), "hits": vec("int"), "weights": vec("double"), "ptList": vec("float", coll_type="ana::FloatList"),
             "tracks": objvec("reco::Track", 0),
             "isPFMuon": num("bool", builtin_decl=True), "isPFIsolationValid": num("bool", builtin_decl=True),
             "globalTrack": obj("reco::Track", 1, nullable=True, ref=True, builtin_decl=True),
@@ -171,7 +171,7 @@ CMS_MINIAOD: Dict[str, Any] = {
         "pat::Muon": {"header": "DataFormats/PatCandidates/interface/Muon.h", "members": {
             **_KIN, "nTrk": num("int"), "width": num("float"), "isGood": num("bool"), "hasLead": num("bool"),
             "ttype": num("double", declared=True, md={"metadata_type": "add_method_type_info", "type_string": "pat::Muon", "method_name": "ttype", "return_type": "double", "tree_type": "float"}),
-            "trkPts": vec("float"), "hits": vec("int"), "weights": vec("double"),
+            "trkPts": vec("float"), "hits": vec("int"), "weights": vec("double"), "ptList": vec("float", coll_type="ana::FloatList"),
             "tracks": objvec("reco::Track", 0),
             "isPFMuon": num("bool", builtin_decl=True), "isPFIsolationValid": num("bool", builtin_decl=True),
             "globalTrack": obj("reco::Track", 1, nullable=True, ref=True, builtin_decl=True, decl_type="reco::TrackRef"),
@@ -224,6 +224,8 @@ def member_metadata(schema, cls: str, name: str) -> List[Dict[str, Any]]:
             d["return_type"] = m["ctype"]
         elif k == "vec":
             d["return_type_element"] = m["ctype"]
+            if m.get("coll_type"):     # a container class of the experiment's own (not spelled std::vector<...>)
+                d["return_type_collection"] = m["coll_type"]
         elif k == "obj":
             d["return_type"] = m.get("decl_type", m["cls"]) + "*" * (1 if m.get("ref") else m["ptr"])
         elif k == "objvec":
